@@ -18,7 +18,7 @@ from units import U
 
 ID = 'C13'
 LEVEL = 'proof'
-GEN_TIES = {'Rankscore': 'Props/GenTie_Rankscore.v', 'Convert': 'Props/GenTie_Convert.v'}
+GEN_TIES = {'Rankscore': 'Props/GenTie_Rankscore.v', 'Convert': 'Props/GenTie_Convert.v', 'ConvertPairs': 'Props/GenTie_ConvertPairs.v'}
 TIE = {'convert.py converters, vote.py subsetters': 'correspondence',
        'component/rankscore.py Dowdall / Geometric / ModifiedBorda / FixedTop': 'translator (per-rank score expressions regenerated into Gen/Rankscore.v on '
                                                                                    'every run, Props/GenTie_Rankscore.v proves them equal to Model/Convert.v rank_scores) + correspondence',
